@@ -211,6 +211,12 @@ CACHE_HOSTS = ["cdn.ampproject.org/c/s/", "cdn.ampproject.org/v/", "a-com.cdn.am
                "x.ampproject.org/c/s/x.ampproject.org/c/s/"]
 CACHE_TAILS = ["", "b.com/x", "b.com/x?u=http://c.com", "/", "b.com/?url=%2Fz", "é.fr/é", "bc.marfeel.com/c.com"]
 CORPUS = [
+    # FX-C15-0c9bfa3: hops are followed by a loop; with the recursive spelling 150 nested hops exhaust the lowered
+    # recursion limit of this harness (and 1000 the interpreter's own: RecursionError out of normalize_url,
+    # parse_youtube_url, ... on a 12 kB url)
+    "http://a.com/?url=" * 150 + "http://b.com/",
+    "http://a?u=" * 150 + "http://youtube.com/watch?v=dQw4w9WgXcQ",
+    "x.cdn.ampproject.org/c/s/" * 150 + "b.com/x",
     "http://x&u=/p",  # D28: maps to itself (target not shorter)
     "http://x&u=%2Fx@a.com/p",  # D28: every step used to produce a longer url carrying the hint again
     "a.com/?url=/z",  # D21: relative target of a scheme-less url
